@@ -102,7 +102,10 @@ def run_case(case, ctx):
             M = A([shp[mode], J] if transpose else [J, shp[mode]])
         desc.update(shape=shp, mode=int(mode), vec=vec, transpose=transpose, M=list(M.shape))
         cls = ("vector" if vec else "matrix") + ("+transpose" if transpose else "")
-        f = lambda: tenalg.mode_dot(T, M, int(mode), transpose=transpose)
+        neg = bool(rs.rand() < 0.25)     # the mode counted from the end, NumPy style
+        if neg:
+            cls += "+negmode"
+        f = lambda: tenalg.mode_dot(T, M, int(mode) - (order if neg else 0), transpose=transpose)
         r = ref.mode_dot(T, M, mode, transpose)
         nontrivial = shp[mode] > 1
     elif fn == "multi_mode_dot":
@@ -135,7 +138,11 @@ def run_case(case, ctx):
               ("+skip" if skip is not None else "") + ("+unsortedmodes" if modes != sorted(modes) else "")
         if transpose and nvec and np.dtype(dt).kind == "c":
             cls += "+complexvec"
-        f = lambda: tenalg.multi_mode_dot(T, list(ops), modes=(list(modes) if explicit else None), skip=skip, transpose=transpose)
+        negm = explicit and bool(rs.rand() < 0.25)
+        modes_arg = [m - order if (negm and rs.rand() < 0.6) else m for m in modes]
+        if negm and any(m < 0 for m in modes_arg):
+            cls += "+negmodes"
+        f = lambda: tenalg.multi_mode_dot(T, list(ops), modes=(list(modes_arg) if explicit else None), skip=skip, transpose=transpose)
         r = ref.multi_mode_dot(T, ops, modes, skip, transpose)
         nontrivial = prod(shp) > 1
     elif fn == "kronecker":
@@ -158,6 +165,9 @@ def run_case(case, ctx):
         mask = None
         if rs.rand() < 0.3:
             mask = (rs.uniform(size=[m.shape[0] for m in rem]) < 0.6).astype(dt)
+            if rs.rand() < 0.3:
+                # a weighting mask (fractional / signed observation weights): "applied entrywise" means multiplied in
+                mask = (mask * rs.uniform(-1, 2, size=mask.shape)).astype(dt)
         desc.update(mats=[list(m.shape) for m in mats], skip=skip, weights=w is not None, mask=mask is not None)
         cls = ("single" if len(rem) == 1 else "multi") + ("+weights" if w is not None else "") + ("+mask" if mask is not None else "")
         f = lambda: tenalg.khatri_rao(list(mats), weights=w, skip_matrix=skip, mask=mask)
@@ -246,7 +256,7 @@ def run_case(case, ctx):
         r = ref.mttkrp(T, w, factors, mode)
     elif fn == "higher_order_moment":
         n = rs.randint(1, 5)
-        feat = gen.shape(rs, rs.randint(1, 3), 1, 3)
+        feat = gen.shape(rs, rs.randint(1, 4), 1, 3)     # samples that are vectors, matrices or order-3 tensors
         order = int(rs.randint(1, 4))
         X = A([n] + feat)
         desc.update(shape=list(X.shape), order=order)
